@@ -340,6 +340,41 @@ def job_iter(which, N, nv):
     return ex, verdict_items, bad_status, len(done)
 
 
+def job_contains(which, N, nv, L):
+    """contains_sorted on a concrete table: membership of a strictly ascending element list equals the family's membership bit"""
+    ex = mk_exec(loop_bound=3 * (nv + L + 2))
+    U = Universe(nv)
+    T = Table(N, nv)
+    tab, tf = table_obj(T)
+    root = sym_ref('root')
+    els = [BitVec('q%d' % i, 32) for i in range(L)]
+    st = State(roots={})
+    # queries may mention one variable beyond those of the table (nv): such a set is never a member
+    st.path.assume(And(T.invariant(), ref_ok(root, N), *([ULE(e, nv) for e in els] + [ULT(els[i], els[i + 1]) for i in range(L - 1)])))
+    slice_ = Ptr([ListModel(list(els))], 0, meta=BitVecVal(L, 64))
+    if which == 'arena':
+        src = open(_MOD.src_dir + '/src/arena.rs').read()
+        af = struct_fields(src, 'ZddArena')
+        arena = [tab if x == 'table' else Opaque(x) for x in af]
+        results = ex.run('ZddArena::contains_sorted', [box(arena), [root], slice_], st=st)
+    else:
+        zsrc = open(_MOD.src_dir + '/src/zdd.rs').read()
+        zf = struct_fields(zsrc, 'Zdd')
+        zdd = [root if x == 'root' else tab for x in zf]
+        results = ex.run('Zdd::contains_sorted', [box(zdd), slice_], st=st)
+    d, of = T.den(U)
+    fam = of(root)
+    inside = And(*[ULT(e, nv) for e in els]) if els else BoolVal(True)
+    m = BitVecVal(0, U.W)
+    for e in els: m = m | (BitVecVal(1, U.W) << z3.ZeroExt(U.W - 32, e) if U.W > 32 else BitVecVal(1, U.W) << z3.Extract(U.W - 1, 0, e))
+    bit = z3.Extract(0, 0, z3.LShR(fam, m)) == 1
+    want = And(inside, bit)
+
+    def post(r):
+        return [('membership answer equals membership in the denoted family', r.ret == want)]
+    return ex, results, post
+
+
 def discharge_items(ex, items, timeout_ms=60000):
     out = []
     for pc, conds, obls in items:
@@ -356,8 +391,8 @@ def _worker(spec):
     kind = spec[0]
     t0 = time.time()
     try:
-        if kind in ('goc', 'remap'):
-            ex, results, post = (job_goc if kind == 'goc' else job_remap)(spec[1], spec[2])
+        if kind in ('goc', 'remap', 'contains'):
+            ex, results, post = job_contains(*spec[1:]) if kind == 'contains' else (job_goc if kind == 'goc' else job_remap)(spec[1], spec[2])
             vs = discharge(ex, results, post)
             out = [{'name': v.name, 'status': v.status, 'secs': v.secs, 'kind': v.kind, 'witness': (str(v.model)[:600] if v.model is not None else None)} for v in vs]
             return {'spec': spec, 'paths': len(results), 'verdicts': out, 'queries': ex.queries, 'solver_s': ex.solver_s, 'inconclusive': list(ex.inconclusive), 'wall_s': time.time() - t0}
@@ -402,6 +437,7 @@ def run(ctx):
                         'get_or_create callers pass ordered arguments (var < top var of lo and hi): emitted as obligations at every call site in C06']
     tasks = [('goc', n, 4) for n in range(0, NG + 1)] + [('lemma', LN, LV)] + [('remap', n, 3) for n in range(0, (3 if quick else 4))]
     tasks += [('iter', w, n, IV) for w in ('arena', 'zdd') for n in range(0, IN + 1)]
+    tasks += [('contains', w, n, 3, l) for w in ('arena', 'zdd') for n in range(0, IN + 1) for l in range(0, 4)]
     with ProcessPoolExecutor(max_workers=14, mp_context=mp.get_context('fork')) as pool:
         res = list(pool.map(_worker, tasks))
     # gc obligations (shared with C06)
@@ -419,8 +455,8 @@ def run(ctx):
     seen = set()
     for r in res:
         sp = r['spec']
-        tgt = {'goc': 'UniqueTable::get_or_create', 'remap': 'ZddArena::remap_to_new_table (gc)', 'lemma': 'table/family abstraction lemmas (model side)', 'iter': ('ArenaIterator::next' if len(sp) > 1 and sp[1] == 'arena' else 'ZddIterator::next')}[sp[0]]
-        cls = {'goc': 'table of %s nodes' % sp[1], 'remap': 'old table of %s nodes' % sp[1], 'lemma': '<= %s nodes, %s variables' % (sp[1], sp[2]), 'iter': 'table of %s nodes' % (sp[2] if len(sp) > 2 else '?')}[sp[0]]
+        tgt = {'goc': 'UniqueTable::get_or_create', 'remap': 'ZddArena::remap_to_new_table (gc)', 'contains': ('ZddArena::contains_sorted' if sp[1] == 'arena' else 'Zdd::contains_sorted'), 'lemma': 'table/family abstraction lemmas (model side)', 'iter': ('ArenaIterator::next' if len(sp) > 1 and sp[1] == 'arena' else 'ZddIterator::next')}[sp[0]]
+        cls = {'goc': 'table of %s nodes' % sp[1], 'remap': 'old table of %s nodes' % sp[1], 'contains': 'table of %s nodes, query of %s elements' % (sp[2], sp[4] if len(sp) > 4 else '?'), 'lemma': '<= %s nodes, %s variables' % (sp[1], sp[2]), 'iter': 'table of %s nodes' % (sp[2] if len(sp) > 2 else '?')}[sp[0]]
         if r.get('error'):
             ctx.inconclusive.append('%s (%s): %s' % (tgt, cls, r['error'])); continue
         for why in r['inconclusive']: ctx.inconclusive.append('%s (%s): %s' % (tgt, cls, why))
